@@ -8,7 +8,7 @@
        and a finite value parses back to exactly itself (shortest round-trip
        printing); integer-valued f64 up to 2^31 print like the integer.
    Everything else is derived here. *)
-From RM Require Import Model.Render Proofs.EncText Proofs.FloatCmp Proofs.NumFacts.
+From RM Require Import Model.EncSpec Proofs.EncText Proofs.FloatCmp Proofs.NumFacts.
 From RM Require Import Gen.Generated.
 From Flocq Require Import BinarySingleNaN.
 From Coq Require Import ZifyBool.
@@ -25,14 +25,6 @@ Record fmt_ok (fmt_f64 : F64 -> str) (fmt_f32 : F32 -> str) (fmt_int : Z -> str)
   f32_chars : forall x, forallb plainc (fmt_f32 x) = true;
   f32_parse : forall x, is_finite x = true -> parse_f32_raw (fmt_f32 x) = Some x
 }.
-
-(* ---------- value ranges (boolean: they are part of [Representable]) ---------- *)
-
-Definition i32_ok (n : Z) : bool := (- max_parse_value <=? n) && (n <=? max_parse_value).
-Definition in_lim64 (x : F64) : bool :=
-  negb (D.is_nan x) && D.le (D.neg f64_limit) x && D.le x f64_limit.
-Definition in_lim32 (x : F32) : bool :=
-  negb (S.is_nan x) && S.le (S.neg f32_limit) x && S.le x f32_limit.
 
 (* ---------- plain strings ---------- *)
 
@@ -93,6 +85,7 @@ Section Fmt.
   Proof.
     unfold in_lim64. intros H. apply andb_true_iff in H. destruct H as [H H2].
     apply andb_true_iff in H. destruct H as [_ H1].
+    change lim64 with f64_limit in *.
     apply (fle_finite_between 53 1024 (D.neg f64_limit) x f64_limit); auto;
       try exact f64_limit_finite;
       try (unfold D.neg, fneg; rewrite is_finite_Bopp; exact f64_limit_finite).
@@ -101,6 +94,7 @@ Section Fmt.
   Proof.
     unfold in_lim32. intros H. apply andb_true_iff in H. destruct H as [H H2].
     apply andb_true_iff in H. destruct H as [_ H1].
+    change lim32 with f32_limit in *.
     apply (fle_finite_between 24 128 (S.neg f32_limit) x f32_limit); auto;
       try exact f32_limit_finite;
       try (unfold S.neg, fneg; rewrite is_finite_Bopp; exact f32_limit_finite).
@@ -109,7 +103,7 @@ Section Fmt.
   Lemma pn_f64_fmt x : in_lim64 x = true -> pn_f64 (fmt_f64 x) = Some x.
   Proof.
     intros H. apply pn_f64_spec. pose proof (in_lim64_finite x H) as Hf.
-    unfold in_lim64 in H. apply andb_true_iff in H. destruct H as [H H2].
+    unfold in_lim64 in H. change lim64 with f64_limit in H. apply andb_true_iff in H. destruct H as [H H2].
     apply andb_true_iff in H. destruct H as [H0 H1]. apply negb_true_iff in H0.
     rewrite (plain_trim _ (f64_chars _ _ _ Hfmt x)).
     repeat split; auto. exact (f64_parse _ _ _ Hfmt x Hf).
@@ -117,7 +111,7 @@ Section Fmt.
   Lemma pn_f32_fmt x : in_lim32 x = true -> pn_f32 (fmt_f32 x) = Some x.
   Proof.
     intros H. apply pn_f32_spec. pose proof (in_lim32_finite x H) as Hf.
-    unfold in_lim32 in H. apply andb_true_iff in H. destruct H as [H H2].
+    unfold in_lim32 in H. change lim32 with f32_limit in H. apply andb_true_iff in H. destruct H as [H H2].
     apply andb_true_iff in H. destruct H as [H0 H1]. apply negb_true_iff in H0.
     rewrite (plain_trim _ (f32_chars _ _ _ Hfmt x)).
     repeat split; auto. exact (f32_parse _ _ _ Hfmt x Hf).
